@@ -192,4 +192,64 @@ class C12(Prop):
             v.add_divergence(sig, [], cnt, exs)
 
 
-PROPS = {"C04": C04(), "C12": C12(), "C02": C02(), "C01": C01(), "C05": C05(), "C06": C06(), "C20": C20(), "C19": C19(), "C17": C17(), "C18": C18()}
+class Guarded(Prop):
+    """properties whose subject code may loop or exhaust memory: run under the case-level watchdog"""
+    budget = {"quick": 90, "thorough": 2400}
+
+    def run(self, v, tier, seed):
+        out = vlib.workdir(self.cmd)
+        res, extra = vlib.run_uvh_guarded(self.cmd, out, seed, tier, self.cases[tier], self.budget[tier])
+        v.add_result(res)
+        for e in extra:
+            v.add_divergence(e["sig"], e["features"], 1, [e])
+        v.rule = self.rule
+        v.assumptions = list(self.assumptions)
+
+
+class C07(Prop):
+    cmd = "c07"
+    cases = {"quick": 1500, "thorough": 40000}
+    rule = ("1-3 sheets with 5-30 cells (unique tokens, constant formulas, hyperlinks, a font-size style tag), merges, conditional-format "
+            "ranges, auto-filter, comments, row heights, column widths; 1 in 6 workbooks placed next to XFD1048576; histories of 1-40 "
+            "operations (insert/remove rows/columns at workbook and sheet level with p at the first line / inside / right behind the "
+            "content, move_range, copy_range, set/remove cell); compared after every operation on every sheet; distinct by hash of history + final model")
+    assumptions = ["oracle: reference grid in the harness (insert shifts everything at/after p; remove deletes what lies in the band, clamps a rectangle corner "
+                   "inside the band to its edge and deletes a rectangle wholly inside it; move = clear destination and source, place source cells; copy = overlay non-blank source cells)",
+                   "only in-range arguments: an insert that would push content past XFD/1048576 is not generated",
+                   "column entries with a width below 20 and unstyled empty cells are by-products, not content"]
+
+
+class C08(Guarded):
+    cmd = "c08"
+    cases = {"quick": 4000, "thorough": 150000}
+    rule = ("3-8 formulas per workbook generated from an AST grammar (depth 1-4: operators, unary signs, percent, nested functions, unions, "
+            "intersections, literals, relative/absolute/mixed references, ranges, whole rows/columns, qualified and quoted qualifiers, names, "
+            "array constants, structured and external references) plus 0-3 defined names, on 3-4 sheets; 1-6 workbook-level inserts/removes; "
+            "each workbook uses the base grammar plus at most two extra features (feature segregation); distinct by hash of formulas + history")
+    assumptions = ["oracle: AST-level reference shifter in the harness; expected text rendered from the AST and compared modulo blanks adjacent to operators / separators / parentheses",
+                   "'Sheet!#REF!' and '#REF!' are both accepted for a deleted qualified target; a defined name whose whole target was removed may also have an empty refers-to or be dropped",
+                   "defined-name addresses are compared modulo optional quoting of the qualifier; chart series are not exercised",
+                   "unless the workbook carries the feature 'deleted-target-allowed' removed bands never contain a reference corner"]
+
+
+class C09(Guarded):
+    cmd = "c09"
+    cases = {"quick": 20000, "thorough": 400000}
+    rule = ("one formula per case from the C08 AST grammar (depth 1-6, base grammar plus at most two extra features; half of the cases with references "
+            "at the grid limits); identity through set_formula + set_coordinate(same), through an insert/remove that concerns none of its references, "
+            "and two translations (dc, dr) incl. moves to the grid corners; distinct by formula text")
+    assumptions = ["oracle: AST renderer / AST translator (non-$ parts move, leaving the grid gives #REF!) compared modulo blanks adjacent to operators",
+                   "external references are exercised on the identity paths only (relative external references do move under translation and the generator models them as opaque text)"]
+
+
+class C10(Prop):
+    cmd = "c10"
+    cases = {"quick": 3000, "thorough": 60000}
+    rule = ("histories of 1-60 operations on one sheet (dense 6x7 or sparse 14x16 area): get_cell_mut with and without a value, set_cell, remove_cell, set_style, "
+            "set_style_by_range (rectangular), insert/remove rows and columns, move/copy range, cleanup, copy_row/col_styling; all invariants evaluated after every "
+            "operation, exactly-once emission checked on the saved sheet XML after every 4th; distinct by hash of the history")
+    assumptions = ["oracle: brute-force scan of get_collection_to_hashmap vs every other public view of the store",
+                   "whole-row / whole-column forms of set_style_by_range are not used (they panic before touching the store, see KF-C17)"]
+
+
+PROPS = {"C07": C07(), "C08": C08(), "C09": C09(), "C10": C10(), "C04": C04(), "C12": C12(), "C02": C02(), "C01": C01(), "C05": C05(), "C06": C06(), "C20": C20(), "C19": C19(), "C17": C17(), "C18": C18()}
